@@ -322,6 +322,28 @@ func ComputeStateKeyWithWord(nfaStates []nfa.StateID, isFromWord bool) StateKey 
 	return ComputeStateKeyWithWordAndMatch(nfaStates, isFromWord, false)
 }
 
+// computeOrderedStateKey is the key used by determinization. Unlike
+// ComputeStateKeyWithWordAndMatch it hashes the NFA states in the order given:
+// they are kept in priority order, and leftmost-first determinization (break at
+// the first match state) depends on that order, so {1,2,3} and {3,2,1} are
+// different DFA states. Keying on the sorted set would hand a search whichever
+// ordering an earlier search happened to cache first.
+func computeOrderedStateKey(nfaStates []nfa.StateID, isFromWord bool, isMatch bool) StateKey {
+	h := fnv.New64a()
+	var flags byte = 4 // distinguishes ordered keys from the set-based ones
+	if isFromWord {
+		flags |= 1
+	}
+	if isMatch {
+		flags |= 2
+	}
+	_, _ = h.Write([]byte{flags})
+	for _, sid := range nfaStates {
+		_, _ = h.Write([]byte{byte(sid), byte(sid >> 8), byte(sid >> 16), byte(sid >> 24)})
+	}
+	return StateKey(h.Sum64())
+}
+
 // ComputeStateKeyWithWordAndMatch computes a hash-based key including word context
 // and match delay flag. With 1-byte match delay, the same set of NFA states can
 // produce both a match and non-match DFA state depending on whether the SOURCE
